@@ -28,10 +28,11 @@ RULE = ("case = (learn in on/off/ips/None, eval in on/ips/None, record subset of
         "rewards/time, environment descriptor: 0..6 (thorough 0..14) interactions with one context kind, one action type, "
         "per-interaction action sets, a reward form, presence flags for actions/rewards/logged action+reward/probability, "
         "0-2 extra fields, optional Batch(1..4), learner descriptor: answer format, with/without score, batch-aware or not, "
-        "scripted choices/probabilities/kwargs/scores); all drawn by Hypothesis, three quarters of the environments are built "
+        "scripted choices/probabilities/kwargs/scores); sub-check 'reuse' draws one mode and 2-3 such (environment, learner) pairs for one evaluator object; all drawn by Hypothesis, three quarters of the environments are built "
         "to satisfy the mode's requirements; non-trivial = at least 2 interactions and (mode pair other than (on,on) or extra "
         "fields or batching); distinct = distinct canonical JSON of the case")
 ASSUMPTIONS = [
+    "an evaluator object may be used for any number of evaluations (an Experiment shares one evaluator between all learner/environment pairs); what it requires of an environment is decided per evaluation, for the learner at hand",
     "a logged record whose 'probability' is None (LoggedInteraction's default for an unknown propensity) gets IPS weight 1 for that record only - coba divides by (probability or 1) per interaction in OpeRewards, DRReward and the VW label, and test_off_ips_actions_no_prob pins weight 1 for absent propensities; off-policy learn receives the None; a probability of 0 is not generated (nothing documents it)",
     "the reference evaluator encodes the SequentialCB docstring: on needs actions+rewards, off needs action+reward, ips needs actions+action+reward+probability and rewards the on-policy action with reward/probability if it equals the logged action else 0",
     "a missing 'probability' may be rejected or treated as 1 (coba's own test_off_ips_actions_no_prob pins the latter); eval='ips' with a learner implementing score may use score(context,actions,logged action)*reward/probability instead of a prediction (Learners notebook, 'Score Method'), and then may also accept an environment without 'actions'",
@@ -356,9 +357,22 @@ def check(case, events, out_rows):
 
 # ----------------------------------------------------------------------------------------- run
 def run_case(case):
+    ev = SequentialCB(record=copy.deepcopy(case["record"]), learn=case["learn"], eval=case["eval"], seed=case.get("seed"))
+    run_pair(ev, case)
+
+def run_reuse(case):
+    """One evaluator object, several successive evaluate() calls (an Experiment shares its evaluator between all
+    learner/environment pairs): every call is checked against the reference for its own pair."""
+    ev = SequentialCB(record=copy.deepcopy(case["record"]), learn=case["learn"], eval=case["eval"], seed=case.get("seed"))
+    for i, pair in enumerate(case["pairs"]):
+        try:
+            run_pair(ev, dict(case, env=pair["env"], learner=pair["learner"]))
+        except Violation as e:
+            raise Violation(f"evaluation {i + 1} of {len(case['pairs'])} with the same evaluator object: {e}") from e
+
+def run_pair(ev, case):
     lrn = case["learner"]
     learner = (RecScoreLearner if lrn["score"] else RecLearner)(lrn)
-    ev = SequentialCB(record=copy.deepcopy(case["record"]), learn=case["learn"], eval=case["eval"], seed=case.get("seed"))
     out_rows, error = [], None
     try:
         for row in ev.evaluate(Env(case["env"]), learner):
@@ -432,11 +446,32 @@ def cases(draw, tier):
     rbits = draw(st.integers(0, 127))
     record = [r for i, r in enumerate(RECORDABLE) if rbits >> i & 1]
     if len(record) == 1 and coin(): record = record[0]
+    pair = draw(pairs(tier, learn, eval_, False))
+    return {"learn": learn, "eval": eval_, "record": record, "env": pair["env"], "learner": pair["learner"], "seed": pick([None, 3])}
+
+@st.composite
+def reuse_cases(draw, tier):
+    pick = lambda xs: draw(st.sampled_from(xs))
+    # the modes in which what an environment must provide depends on the learner (score) are drawn more often
+    learn, eval_ = pick([(None, "ips"), ("off", "ips"), (None, "ips"), ("off", "ips")] + [(l, e) for l in ["on", "off", "ips", None] for e in ["on", "ips", None]])
+    rbits = draw(st.integers(0, 127))
+    record = [r for i, r in enumerate(RECORDABLE) if rbits >> i & 1]
+    n = pick([2, 2, 3])
+    return {"learn": learn, "eval": eval_, "record": record, "pairs": [draw(pairs(tier, learn, eval_, True)) for _ in range(n)], "seed": pick([None, 3])}
+
+@st.composite
+def pairs(draw, tier, learn, eval_, score_style_logs):
+    """an (environment, learner double) pair for the given mode"""
+    pick = lambda xs: draw(st.sampled_from(xs))
+    coin = lambda: draw(st.booleans())
     need = needs(learn, eval_)
     fbits = draw(st.integers(0, 63))
     complete = fbits >> 4 != 0
     flag = lambda i, name: bool((name in need or fbits >> i & 1) if complete else fbits >> i & 1)
     fields = {"actions": flag(0, "actions"), "rewards": flag(1, "rewards"), "logged": flag(2, "action"), "probability": flag(3, "probability")}
+    if score_style_logs and eval_ == "ips" and learn in (None, "off") and coin():
+        # a log without action sets: enough for score-based IPS, not enough for a learner without score
+        fields = {"actions": False, "rewards": False, "logged": True, "probability": bool(fbits & 1)}
     if not fields["actions"]: fields["rewards"] = False
     if not fields["logged"]: fields["probability"] = False
     atype = pick(sorted(APOOL))
@@ -453,7 +488,6 @@ def cases(draw, tier):
     same_actions = coin()
     kwkeys = pick([["k"], ["k", "m"], []])
     learner = {"fmt": pick(["A", "AP", "AK", "APK"]), "score": coin(), "batch_ok": coin()}
-    seed = pick([None, 3])
     nrows = pick([0, 1, 2, 2, 3, 3, 4, 5, 6] + ([] if tier == "quick" else [8, 10, 14]))
     zs = draw(st.lists(st.integers(0, BIG - 1), min_size=nrows, max_size=nrows))
     pool = APOOL[atype]
@@ -488,7 +522,7 @@ def cases(draw, tier):
         script.append({"choice": d(4), "p": PROBS[d(len(PROBS))], "x": [0.5, 1.0, 2.0, -1.0][d(4)],
                        "kw": {k: KWVALS[d(len(KWVALS))] for k in kwkeys}, "score": [1.0, 0.5, 0.25, 0.0, 0.75][d(5)]})
     learner["script"] = script
-    return {"learn": learn, "eval": eval_, "record": record, "env": env, "learner": learner, "seed": seed}
+    return {"env": env, "learner": learner}
 
 # ----------------------------------------------------------------------------------------- evidence
 def nontrivial(case):
@@ -522,8 +556,34 @@ def view(case):
 def classify(case, exc):
     return None
 
+def as_single(case, pair):
+    return dict(case, env=pair["env"], learner=pair["learner"])
+
+def reuse_nontrivial(case):
+    return sum(1 for p in case["pairs"] if p["env"]["rows"]) >= 2
+
+def reuse_classes(case):
+    out = [f"learn={case['learn']}", f"eval={case['eval']}", f"evaluations={len(case['pairs'])}"]
+    kinds = []
+    for p in case["pairs"]:
+        if not p["env"]["rows"]: kinds.append("empty"); continue
+        strict, lenient = missing_fields(as_single(case, p))
+        kinds.append("reject" if strict else "lenient" if lenient else "accept")
+    out.append("outcomes=" + ",".join(kinds))
+    scores = [p["learner"]["score"] for p in case["pairs"]]
+    if len(set(scores)) > 1: out.append("score-then-no-score" if scores[0] else "no-score-then-score")
+    if case["eval"] == "ips" and case["learn"] in (None, "off") and len(set(scores)) > 1 and any(not p["env"]["fields"]["actions"] for p in case["pairs"]):
+        out.append("requirements-depend-on-learner")
+    return out
+
+def reuse_view(case):
+    return dict(case, pairs=[view(as_single(case, p)) for p in case["pairs"]][:2])
+
 SUBCHECKS = [
     Sub(name="modes", run=run_case, strategy=cases, nontrivial=nontrivial, classes=classes, classify=classify, quick=6000, thorough=150000,
         quick_shards=4, sample_view=view,
         what="generated environment x learn x eval x record x recording learner: call trace and rows against a reference evaluator written from the SequentialCB docstring; environments lacking required fields must raise before any row"),
+    Sub(name="reuse", run=run_reuse, strategy=reuse_cases, nontrivial=reuse_nontrivial, classes=reuse_classes, quick=2000, thorough=60000,
+        quick_shards=2, sample_view=reuse_view,
+        what="one SequentialCB object, 2-3 successive evaluate() calls with independently generated (environment, learner double) pairs (with/without score, with/without the optional fields, batched or not): every call is checked against the reference for its own pair - trace, rows, rejection"),
 ]
